@@ -28,51 +28,51 @@ type Obligation struct {
 	Known   bool // expected to fail (known finding)
 	Canary  bool // must NOT be unsat
 	// results
-	Result string // unsat sat unknown timeout error
-	Solver string
-	Time   float64
-	Output string
-	File   string
-	Model  string
-	RefuteModel  string
-	RefuteSolver string
-	Replayable   bool              // the function may be called on a model's input (replay.go)
-	ReplayAssume []string          // `replay assume` directives evaluated at the obligation's program point (candidate queries only)
-	ReplayArgs   map[string][]Term // terms for `replay input` directives, evaluated at the obligation's program point
-	CandidateModel  string // model of the refutation query without its quantified assumptions (input candidate for the replay only)
+	Result          string // unsat sat unknown timeout error
+	Solver          string
+	Time            float64
+	Output          string
+	File            string
+	Model           string
+	RefuteModel     string
+	RefuteSolver    string
+	Replayable      bool              // the function may be called on a model's input (replay.go)
+	ReplayAssume    []string          // `replay assume` directives evaluated at the obligation's program point (candidate queries only)
+	ReplayArgs      map[string][]Term // terms for `replay input` directives, evaluated at the obligation's program point
+	CandidateModel  string            // model of the refutation query without its quantified assumptions (input candidate for the replay only)
 	CandidateFile   string
 	CandidateSolver int
-	Disagree     bool
-	lemmaIdx int
-	Wall     float64
-	Preset   bool // decided without a solver (structural obligations)
+	Disagree        bool
+	lemmaIdx        int
+	Wall            float64
+	Preset          bool // decided without a solver (structural obligations)
 }
 
 type Verifier struct {
-	prog         *ssa.Program
-	pkgs         []*packages.Package
-	spkgs        map[string]*ssa.Package
-	allTypesPkgs []*types.Package
-	cs           *ContractSet
-	decls        *Decls
-	heapSorts    map[string]string
-	counter      int
-	refuteMode   bool
-	obls         []*Obligation
-	fnByKey      map[string]*ssa.Function // pkgpath::RelString
-	notes        []string
-	internalErrs []string
-	pathCounter  int
-	funcsDone    map[string]bool
-	repoDir      string
-	axioms       []axiomText
-	rtypeIDs     map[string]int
+	prog           *ssa.Program
+	pkgs           []*packages.Package
+	spkgs          map[string]*ssa.Package
+	allTypesPkgs   []*types.Package
+	cs             *ContractSet
+	decls          *Decls
+	heapSorts      map[string]string
+	counter        int
+	refuteMode     bool
+	obls           []*Obligation
+	fnByKey        map[string]*ssa.Function // pkgpath::RelString
+	notes          []string
+	internalErrs   []string
+	pathCounter    int
+	funcsDone      map[string]bool
+	repoDir        string
+	axioms         []axiomText
+	rtypeIDs       map[string]int
 	inlinableCache map[*ssa.Function]bool
-	embeddedPtr  map[string]bool   // heap variables of embedded pointer fields (e.g. FileIP.BaseIP)
-	heapIsRef    map[string]string // heap variable -> "field" / "mapval:<keysort>" when its values are references
-	constGlobals map[string]Term // package-level variables that are initialised with a constant and never assigned again
-	lazyGlobal   map[string]string // initial heap symbol -> closedness axiom (included when the symbol is mentioned)
-	safetyChecks bool
+	embeddedPtr    map[string]bool   // heap variables of embedded pointer fields (e.g. FileIP.BaseIP)
+	heapIsRef      map[string]string // heap variable -> "field" / "mapval:<keysort>" when its values are references
+	constGlobals   map[string]Term   // package-level variables that are initialised with a constant and never assigned again
+	lazyGlobal     map[string]string // initial heap symbol -> closedness axiom (included when the symbol is mentioned)
+	safetyChecks   bool
 }
 
 var repoPkgs = []string{".", "./components", "./cmd/scipipe"}
